@@ -59,6 +59,7 @@ CHECKS["C06"] = {
     "jobs": [
         rapid_job("valid", "./verifh/c06", "TestReadMask|TestValidateAcceptsValid", 6000, 40000),
         rapid_job("corrupt", "./verifh/c06", "TestCorruptMask", 6000, 40000),
+        {"name": "fuzz-readmask", "pkg": "./verifh/c06", "run": "^$", "rapid": False, "fuzz": "FuzzReadMask", "fuzztime": {T: 150}, "tiers": (T,), "shards": {T: 1}},
     ],
 }
 
@@ -101,6 +102,7 @@ CHECKS["C15"] = {
     "jobs": [
         rapid_job("paging", "./verifh/c15", "TestPaging", 6000, 20000),
         rapid_job("hostile", "./verifh/c15", "TestHostileRequests", 10000, 40000),
+        {"name": "fuzz-pagetoken", "pkg": "./verifh/c15", "run": "^$", "rapid": False, "fuzz": "FuzzPageToken", "fuzztime": {T: 120}, "tiers": (T,), "shards": {T: 1}},
     ],
 }
 
@@ -123,11 +125,14 @@ CHECKS["C04"] = {
     "rule": ("rapid-generated single-writer histories (1-25 successful and failing Set/Add/Update/Delete with any options, same-value writes, add-remove-re-add chains, with and without WithWriteTime) "
              "on a Value or Collection with initial contents empty/one/many, observed by 1-3 backpressured subscriptions with drawn {updates-only, read mask, WithNoDuplicates}; after a sentinel write "
              "each received log must equal the model's edit script exactly: count, order, id, kind, new value, old value, seed flags, change time (exact with write time, else inside the fake clock's "
-             "call interval). non-trivial = history with a remove followed by a re-add, a failing write between successful ones, or an equivalence configured; distinct by (subscriptions, op/outcome sequence)"),
+             "call interval). Plus a bounded-exhaustive layer: every history of up to 4 (Value) / 3 (Collection) calls (5 / 4 thorough) over a compact alphabet (2 ids, values differing in one field, "
+             "create-if-absent, CAS failures, invalid / empty masks, write times, deletes with allow-missing) x initial contents {empty, one, many} x equivalence on/off, each observed by four "
+             "subscriptions at once (plain, updates-only, masked, updates-only+masked). non-trivial = history with a remove followed by a re-add, a failing write between successful ones, or an equivalence configured; distinct by (subscriptions, op/outcome sequence)"),
     "assumptions": ["one writer at a time; consumers always receive", "with an equivalence the read masks are top-level non-message paths (so the sentinel is never suppressed)"],
     "jobs": [
         rapid_job("value", "./verifh/c04", "TestValueStream", 3000, 20000),
         rapid_job("collection", "./verifh/c04", "TestCollectionStream", 3000, 20000),
+        enum_job("exhaustive", "./verifh/c04", "TestStreamExhaustive", shards={Q: 8, T: 16}, timeout={Q: 600, T: 3000}),
     ],
 }
 
@@ -206,9 +211,23 @@ CHECKS["C10"] = {
     ],
 }
 
+def _c07_prebuild(workdir, repo, goenv, log):
+    import os, sys
+    sys.path.insert(0, os.path.dirname(os.path.abspath(__file__)))
+    import discover
+    gen = os.path.join(workdir, "gen", "zz_models_gen_test.go")
+    n = discover.write_model_registry(repo, gen)
+    log("discovered %d trait models" % n)
+    if n < 10:
+        return False
+    return {os.path.join(repo, "verifh", "c07", "zz_models_gen_test.go"): gen}
+
+
 CHECKS["C07"] = {
-    "rule": ("rapid stateful sequences (5-40 steps) on Value/Collection (all options, id interceptors, masks) with 0-3 subscriptions, and on trait models (parent, metadata, enter/leave, electric, "
-             "vending, publication, hail, booking, fan speed, mode, meter) through their public methods with generated arguments; every message crossing the boundary (read results, write results, "
+    "prebuild": _c07_prebuild,
+    "rule": ("rapid stateful sequences (5-40 steps) on Value/Collection (all options, id interceptors, masks) with 0-3 subscriptions, and on trait models: hand-written drivers for parent, metadata, enter/leave, electric, "
+             "vending, publication, hail, booking, plus a reflective driver that calls every public method of every model discovered in pkg/trait (source scan at check time) whose Go signature can be generated "
+             "(messages, masks, strings, numbers, options); every message crossing the boundary (read results, write results, "
              "event new/old values, seeds) is registered with a deep copy and re-compared after every later operation; every message handed to a write is scribbled over right after the call and the "
              "contents re-compared with the reference model / an independent read; read-only operations (Get, List, Pull incl. seed, Describe) must leave the stored state unchanged. "
              "non-trivial = a registered snapshot survived >=3 later steps in a run with >=3 successful writes; distinct by op/outcome sequence"),
@@ -216,20 +235,23 @@ CHECKS["C07"] = {
     "jobs": [
         rapid_job("core", "./verifh/c07", "TestCoreValueIsolation|TestCoreCollectionIsolation", 1000, 8000),
         rapid_job("models", "./verifh/c07", "TestModel(Parent|Metadata|EnterLeave|Electric|Vending|Publication|Hail|Booking)", 400, 3000),
+        rapid_job("all-models", "./verifh/c07", "TestAllModelsReflective", 3000, 40000),
     ],
 }
 
 CHECKS["C19"] = {
     "rule": ("bounded-exhaustive sequences (length <= 4 quick / 5 thorough) over a compact alphabet of create/add/update(normal on/off, masked)/delete(allow-missing)/set-active/change-active/clear-active "
              "steps on up to 2 modes + an unknown id, alternating between the Model API and the ElectricApi/MemorySettingsApi servers; rapid-drawn sequences of 1-25 steps over up to 4 modes; and 2-4 "
-             "goroutines issuing the same operations concurrently. Invariants after every step / at quiescence: <=1 normal mode, active mode exists once changed, active mode never deleted, clear selects "
-             "the normal mode (NotFound and unchanged without one), switching to a different id stamps the fake clock's reading of that call, same id keeps the start time, deleting an absent mode gives "
+             "goroutines issuing the same operations concurrently, plus duels: 2-3 drawn conflict-prone calls (delete / activate / clear / make-normal / create-normal on the same two modes) released "
+             "at the same instant on a fresh model, 150 (600 thorough) rounds per drawn combination with a sweep of start skews. Invariants after every step / at quiescence: <=1 normal mode, active mode exists once changed, active mode never deleted, clear selects "
+             "the normal mode (NotFound and unchanged without one), switching to a different id stamps the fake clock's reading of that call (re-selecting the active id is counted, not judged), deleting an absent mode gives "
              "NotFound unless allow-missing. non-trivial = sequence that tries to make a second mode normal, deletes the active mode, or changes the active mode; distinct by step/outcome sequence"),
     "assumptions": ["the model clock is a fake ticking clock; the start time must lie within the ticks consumed by the call"],
     "jobs": [
         enum_job("exhaustive", "./verifh/c19", "TestElectricExhaustive", shards={Q: 4, T: 16}, timeout={Q: 600, T: 3000}),
         rapid_job("sequences", "./verifh/c19", "TestElectricSequences", 4000, 30000),
         rapid_job("concurrent", "./verifh/c19", "TestElectricConcurrent", 500, 4000, shards_t=8),
+        rapid_job("duels", "./verifh/c19", "TestElectricDuels", 60, 150, shards={Q: 6, T: 12}, timeout={Q: 400, T: 2400}),
     ],
 }
 
